@@ -190,6 +190,8 @@ func c01Script(sc *L1Scenario, tier int) {
 		}
 		ws = append(ws, Withdrawal{Bridge: bs[0], Seq: uint64(k + 1), From: "l2user", To: to, Denom: sc.Denoms[r.Intn(len(sc.Denoms))], Amt: big.NewInt(int64(1 + r.Intn(60)))})
 	}
+	nOrdinary := len(ws)
+	ws = append(ws, sc.specialLeaves(bs[0], uint64(len(ws)+1))...)
 	t0 := sc.customTree(bs[0], ws)
 	// its twin for bs[1]: same sequences and fields, other bridge id
 	var ws1 []Withdrawal
@@ -230,7 +232,7 @@ func c01Script(sc *L1Scenario, tier int) {
 	}
 	for i := 0; i < steps; i++ {
 		sub := e.User(uint64(1 + r.Intn(7))).Str
-		switch r.Weighted([]int{14, 22, 18, 12, 14, 12, 8, 10, 8, 10}) {
+		switch r.Weighted([]int{14, 22, 18, 12, 14, 12, 8, 10, 8, 10, 12, 12}) {
 		case 0:
 			sc.Advance([]int64{period, period + sec, sec}[r.Intn(3)])
 		case 1: // honest claim on bridge 0
@@ -261,6 +263,14 @@ func c01Script(sc *L1Scenario, tier int) {
 			delLast(bs[r.Intn(len(bs)-1)])
 		case 8: // a paid claim with the recipient in upper case / a claim with amount + k*2^64
 			sc.variantStep()
+		case 10: // a special leaf (module-account / escrow recipient, zero amount, twin denom) claimed and resubmitted
+			if ok00 {
+				sc.claimTwice(p00, nOrdinary+r.Intn(len(ws)-nOrdinary), bs[0])
+			}
+		case 11: // a proven leaf claimed in the other-case twin denom (uinit <-> UINIT)
+			if ok00 {
+				sc.twinDenomClaim(p00, bs[0])
+			}
 		case 9: // a valid claim on the richly funded bridge with amount + k*2^64 (same low 64 bits)
 			if ok00 {
 				op := sc.Claim(p00, r.Intn(len(ws)), sub)
@@ -277,7 +287,7 @@ func genC01(seed uint64, tier, outdir string) *Report {
 	return runMoneyStream(MoneyStream{Prop: "C01", Weights: w, NRandom: [2]int{18, 200}, Len: [2]int{60, 140},
 		Scripts: []func(*L1Scenario, int){c01Script}, NScript: [2]int{18, 200},
 		Monitors: []L1Monitor{c01Monitor, provenLeafMonitor("C01"), doublePayMonitor("C01")},
-		Prep:     whalePrep, Spice: (*L1Scenario).variantStep, SpicePct: 10,
+		Prep:     moneyPrep, Spice: (*L1Scenario).variantStep, SpicePct: 10,
 		Rule: "a case is one multi-bridge L1 history on a fresh instance (scripted cross-bridge replay scenario plus random tail, or fully random); distinct by hash of the op list; non-trivial = at least one finalization accepted and at least one rejected"},
 		seed, tier, outdir)
 }
